@@ -81,7 +81,7 @@ def add_true_filter(rng, m):
     if not ds:
         return None
     mm = copy.deepcopy(m)
-    args = [rng.choice(ds)["name"]] + ([rng.choice(dc)["name"]] if dc and rng.random() < 0.7 else [])
+    args = [rng.choice(ds)["name"]] + ([rng.choice(dc)["name"]] if dc and rng.random() < 0.5 else [])
     e = ["le", const(0), var(args[0])]
     mm["funcs"].insert(rng.randrange(len(mm["funcs"]) + 1), mkfunc("tt_filter", "filter", args, e))
     mm["params"]["tt_filter"] = {}
